@@ -564,13 +564,43 @@ def main():
         for n, src in route_fns(i, p).items():
             fns[n] = src
             owner[n] = (i, p)
+    # ordinary usage of arguments: every method whose argument is a key / name (ToBytes) is called with
+    # the name a listing just returned - by reference and by value - and with an owned String built in
+    # an inner scope; judged against the baseline of the pinned types like route h
+    argfns = {}
+    for (forty, trait, name, recv, args, outty, outfull) in methods:
+        if forty not in ("Tx", "Bucket") or trait is not None or recv is None:
+            continue
+        if not any("ToBytes" in ab for (_, _, ab) in args):
+            continue
+        recv_expr = "tx" if forty == "Tx" else "b"
+        for style, first in (("ref", "&n"), ("val", "n"), ("string", "{ let s = String::from_utf8_lossy(n.name()).into_owned(); s }")):
+            argv = []
+            used = False
+            ok = True
+            for (an, at, ab) in args:
+                if "ToBytes" in ab and not used:
+                    argv.append(first)
+                    used = True
+                else:
+                    a = synth_arg(an, at, ab)
+                    if a is None:
+                        ok = False
+                        break
+                    argv.append(a)
+            if not ok:
+                continue
+            fn = "n_%s_%s_%s" % (forty.lower(), name, style)
+            body = "let tx = db.tx(true).unwrap(); let b = tx.get_bucket(\"b\").unwrap(); let names: Vec<_> = b.buckets().map(|(n, _)| n).collect(); for n in names { let _ = %s.%s(%s); } drop(b); tx.commit().unwrap();" % (recv_expr, name, ", ".join(argv))
+            argfns[fn] = "%s::%s(%s)" % (forty, name, style)
+            fns[fn] = "pub fn %s(db: &DB) {\n    %s\n}\n" % (fn, body)
     for n, body in ARG_ROUTES:
         fns[n] = "pub fn %s(db: &DB) {\n    %s\n}\n" % (n, body)
     for n, body in CONTROLS:
         fns[n] = "pub fn %s(db: &DB) {\n    %s\n}\n" % (n, body)
 
     # thread routes produce E0277 (a type error): keep them in their own unit
-    life = {n: s for n, s in fns.items() if n[0] in "abcfgehk" or n.startswith("ctl_")}
+    life = {n: s for n, s in fns.items() if n[0] in "abcfgehkn" or n.startswith("ctl_")}
     thread = {n: s for n, s in fns.items() if n[0] in "tuvm"}
     res = {}
     res.update(compile_unit(life, rlib, deps, "life"))
@@ -587,7 +617,7 @@ def main():
                 violations.append(("control_rejected", "positive control %s must compile but rustc says %s %s" % (n, codes, msgs[:1]), {"program": fns[n]}))
             continue
         route = n[0]
-        if route in "hk":
+        if route in "hkn":
             continue  # judged against the baseline below
         if status == "borrow":
             rejected += 1
@@ -630,6 +660,9 @@ def main():
     for n, (status, codes, msgs) in res.items():
         if n[0] in "hk" and n in owner:
             h_now[("" if n[0] == "h" else "k|") + owner[n][1]["id"]] = "compiled" if status == "compiled" else ("rejected" if status == "borrow" else "other:" + ",".join(codes))
+    for n, label in argfns.items():
+        status, codes, msgs = res.get(n, ("type", [], []))
+        h_now["n|" + label] = "compiled" if status == "compiled" else ("rejected" if status == "borrow" else "other:" + ",".join(codes))
     if "--write-baseline" in sys.argv:
         json.dump(h_now, open(base_path, "w"), indent=1, sort_keys=True)
         print("baseline written: %d producers, %d compile" % (len(h_now), sum(1 for v in h_now.values() if v == "compiled")))
@@ -644,6 +677,10 @@ def main():
             continue
         h_checked += 1
         if h_now[pid] != "compiled":
+            if pid.startswith("n|"):
+                n = next(k for k, lab in argfns.items() if lab == pid[2:])
+                violations.append(("ordinary_usage_rejected:" + pid, "a call that passes the name a listing returned (by reference / by value / as an owned String) compiled with the pinned types and is now rejected (%s)" % h_now[pid], {"program": fns[n], "call": pid[2:], "route": "n"}))
+                continue
             rt, rid = ("k", pid[2:]) if pid.startswith("k|") else ("h", pid)
             n = next(k for k in owner if k[0] == rt and owner[k][1]["id"] == rid)
             shape = "`let r = { ..handles..; %s }; use(&r)`" if rt == "h" else "`let r = %s; use(&r); tx.commit()` with the handles and r still in scope, unused, at the commit"
